@@ -112,16 +112,8 @@ pub proof fn canary_u_map(y: int)
 
 
 
-def build():
-    u = Unit('u_map', serves=['C01', 'C02', 'C03'])
-    u.use('use std::marker::PhantomData;')
-    u.use('use std::collections::BTreeMap;')
-    common.target64(u)
-    common.std_specs(u)
-    common.handle_trait(u, P)
-    u.trusted_text(VX_POSITION, 'external_body vx_position: std Iterator::position semantics + structural == on handles (R-outline)')
-
-    emit_relationmap(u, P)
+def emit_other_maps(u, P):
+    """RelationBTreeMap, TripleRelationMap, ExclusiveRelationMap under contract"""
     # ------------------------------------------------------------------ RelationBTreeMap
     CMP = ('cmp_laws', 'vstd::laws_cmp::obeys_cmp::<A>()')
     u.item('src/store.rs', 'struct', 'RelationBTreeMap')
@@ -231,4 +223,17 @@ def build():
         Fn('get', props=P, ret='r', requires=[CMP],
            ensures=[('exact', 'r == (if self.data@.contains_key(x) { Some(self.data@[x]) } else { None })')]),
     ])
+
+
+def build():
+    u = Unit('u_map', serves=['C01', 'C02', 'C03'])
+    u.use('use std::marker::PhantomData;')
+    u.use('use std::collections::BTreeMap;')
+    common.target64(u)
+    common.std_specs(u)
+    common.handle_trait(u, P)
+    u.trusted_text(VX_POSITION, 'external_body vx_position: std Iterator::position semantics + structural == on handles (R-outline)')
+
+    emit_relationmap(u, P)
+    emit_other_maps(u, P)
     return u
